@@ -12,9 +12,12 @@ import (
 	"path"
 	"sort"
 	"strings"
+	"time"
 
 	"github.com/pingcap/kvproto/pkg/metapb"
 	"github.com/pingcap/log"
+	"github.com/tikv/pd/server/cluster"
+	"github.com/tikv/pd/server/config"
 	"github.com/tikv/pd/server/core"
 	"github.com/tikv/pd/server/kv"
 	"github.com/tikv/pd/server/schedule/placement"
@@ -23,6 +26,7 @@ import (
 	"pdverif/internal/coqfmt"
 	"pdverif/internal/res"
 	"pdverif/internal/rng"
+	"pdverif/internal/srv14"
 )
 
 // ---------- raw case (json, replayable) ----------
@@ -63,6 +67,22 @@ type caseJ struct {
 	Manager     bool    `json:"manager,omitempty"`
 	Install     []ruleJ `json:"install,omitempty"`
 	DropDefault bool    `json:"drop_default,omitempty"`
+	// manager stream, environment: while RuleManager.FitRegion(A) is called, another goroutine holds the
+	// write lock of the core.BasicCluster for LockWaitMs milliseconds (a heartbeat / PutStore being
+	// processed): the fit waits in GetStore / GetStores and must give the same answer afterwards
+	LockWaitMs int `json:"lock_wait_ms,omitempty"`
+	// cluster stream: the stores live in the RaftCluster of a real pd server. Puts is the history of
+	// the stores (RaftCluster.PutStore = a store (re)joining with labels, merged into the ones it has, an
+	// empty value drops the label; RaftCluster.UpdateStoreLabels with force = `store label --force`);
+	// Stores is what the cluster reports afterwards (GetStores: id and GetLabels of every store, read back
+	// on every run) and FitRegion gets the RaftCluster itself as its StoreSet
+	Cluster bool   `json:"cluster,omitempty"`
+	Puts    []putJ `json:"puts,omitempty"`
+}
+type putJ struct {
+	ID     uint64      `json:"id"`
+	Labels [][2]string `json:"labels"`
+	Force  bool        `json:"force,omitempty"` // UpdateStoreLabels(id, labels, true) instead of PutStore
 }
 
 // ---------- the mock store set ----------
@@ -513,6 +533,13 @@ func genManager(r *rng.R) caseJ {
 	return c
 }
 
+// the manager stream with a writer holding the cluster lock while the fit starts
+func genLockWait(r *rng.R) caseJ {
+	c := genManager(r)
+	c.Stream, c.LockWaitMs = "lockwait", 60+r.Intn(30)
+	return c
+}
+
 func genCase(r *rng.R) caseJ {
 	if r.Pct(22) {
 		return genFitting(r)
@@ -617,6 +644,106 @@ func managerSetup(c *caseJ) (*placement.RuleManager, *core.BasicCluster) {
 	return m, bc
 }
 
+// ---------- the cluster stream: stores behind the RaftCluster of a real pd server ----------
+var theSrv *srv14.Srv
+var theRC *cluster.RaftCluster
+
+const clusterStores = 7 // store ids 1..7 (1 is the bootstrap store)
+
+func mkLabels(ls [][2]string) []*metapb.StoreLabel {
+	out := []*metapb.StoreLabel{}
+	for _, l := range ls {
+		out = append(out, &metapb.StoreLabel{Key: l[0], Value: l[1]})
+	}
+	return out
+}
+
+func clusterSetup(c *caseJ) *cluster.RaftCluster {
+	if theSrv == nil {
+		x, err := srv14.Start(func(cfg *config.Config) { cfg.LeaderLease = 60 })
+		if err != nil {
+			panic(err)
+		}
+		if err := x.Bootstrap(&metapb.Store{Id: 1, Address: "s1", Version: "4.0.0"}); err != nil {
+			panic(err)
+		}
+		theSrv, theRC = x, x.S.GetRaftCluster()
+	}
+	for _, p := range c.Puts {
+		var err error
+		if p.Force && theRC.GetStore(p.ID) != nil {
+			err = theRC.UpdateStoreLabels(p.ID, mkLabels(p.Labels), true)
+		} else {
+			err = theRC.PutStore(&metapb.Store{Id: p.ID, Address: fmt.Sprintf("s%d", p.ID), Version: "4.0.0", Labels: mkLabels(p.Labels)})
+		}
+		if err != nil {
+			panic(fmt.Sprintf("cluster stream: put %+v: %v", p, err))
+		}
+	}
+	// what the cluster says its stores are (the labels of the store records)
+	c.Stores = nil
+	for _, s := range theRC.GetStores() {
+		sj := storeJ{ID: s.GetID(), State: int(s.GetState())}
+		for _, l := range s.GetLabels() {
+			sj.Labels = append(sj.Labels, [2]string{l.GetKey(), l.GetValue()})
+		}
+		c.Stores = append(c.Stores, sj)
+	}
+	sort.Slice(c.Stores, func(i, j int) bool { return c.Stores[i].ID < c.Stores[j].ID })
+	return theRC
+}
+
+var clusterKeys = []string{"zone", "rack", "host", "engine", "disk"}
+
+func genClusterLabels(r *rng.R) [][2]string {
+	var ls [][2]string
+	for i, k := range clusterKeys {
+		if r.Pct([]int{85, 50, 75, 15, 25}[i]) {
+			vs := valsOf[k]
+			ls = append(ls, [2]string{k, vs[r.Intn(len(vs))]})
+		}
+	}
+	return ls
+}
+
+// every store is first set to known labels (joined, then forced), then some stores come back with other
+// labels / get labels changed or dropped by the operator; rules are written against the final labels
+func genCluster(r *rng.R) caseJ {
+	c := caseJ{Stream: "cluster", Cluster: true}
+	for id := uint64(1); id <= clusterStores; id++ {
+		ls := genClusterLabels(r)
+		c.Puts = append(c.Puts, putJ{ID: id, Labels: ls}, putJ{ID: id, Labels: ls, Force: true})
+	}
+	n := 1 + r.Pick(25, 35, 25, 15)
+	for i := 0; i < n; i++ {
+		id := 1 + uint64(r.Intn(clusterStores))
+		p := putJ{ID: id, Force: r.Pct(35)}
+		if p.Force {
+			p.Labels = genClusterLabels(r)
+		} else {
+			// merged: the given keys are overwritten, an empty value drops the label
+			for _, k := range clusterKeys[:3] {
+				switch r.Pick(45, 40, 15) {
+				case 1:
+					vs := valsOf[k]
+					p.Labels = append(p.Labels, [2]string{k, vs[r.Intn(len(vs))]})
+				case 2:
+					p.Labels = append(p.Labels, [2]string{k, ""})
+				}
+			}
+		}
+		c.Puts = append(c.Puts, p)
+	}
+	stores := make([]storeJ, 0, clusterStores)
+	for id := uint64(1); id <= clusterStores; id++ {
+		stores = append(stores, storeJ{ID: id})
+	}
+	c.Rules = genRules(r, false)
+	c.A = genRegion(r, stores, false)
+	c.B = mutate(r, c.A, stores, false)
+	return c
+}
+
 func run(R *res.Result, c *caseJ) outcome {
 	ss := mkStores(c.Stores)
 	var mgr *placement.RuleManager
@@ -624,7 +751,12 @@ func run(R *res.Result, c *caseJ) outcome {
 	if c.Manager {
 		mgr, bc = managerSetup(c)
 	}
+	var rc *cluster.RaftCluster
+	if c.Cluster {
+		rc = clusterSetup(c)
+	}
 	rules := mkRules(c.Rules)
+	first := true
 	fit := func(r regionJ) (f *placement.RegionFit) {
 		defer func() {
 			if e := recover(); e != nil {
@@ -633,7 +765,21 @@ func run(R *res.Result, c *caseJ) outcome {
 			}
 		}()
 		if mgr != nil {
+			if c.LockWaitMs > 0 && first {
+				first = false
+				held := make(chan struct{})
+				go func() {
+					bc.Lock()
+					close(held)
+					time.Sleep(time.Duration(c.LockWaitMs) * time.Millisecond)
+					bc.Unlock()
+				}()
+				<-held
+			}
 			return mgr.FitRegion(bc, mkRegion(r))
+		}
+		if rc != nil {
+			return placement.FitRegion(rc, mkRegion(r), rules)
 		}
 		return placement.FitRegion(ss, mkRegion(r), rules)
 	}
@@ -755,6 +901,8 @@ func main() {
 	nex := flag.Int("grid", 0, "number of cases of the exhaustive stream (0 = none, -1 = all)")
 	out := flag.String("out", ".", "output directory")
 	tier := flag.String("tier", "quick", "")
+	nlock := flag.Int("lockwait", 0, "number of manager cases run while a writer holds the cluster lock (60..90 ms each)")
+	ncluster := flag.Int("cluster", 0, "number of cases whose stores live in a real pd server's RaftCluster")
 	corpus := flag.String("corpus", "", "json file: list of raw cases run first")
 	replay := flag.String("replay", "", "json file: one raw case (or an evidence replay file) to run and print")
 	flag.Parse()
@@ -762,7 +910,7 @@ func main() {
 
 	R := res.New("C12", *seed, *tier)
 	R.Rule = "inputs = (1..7 labelled stores, 0..4 rules with role/count/label constraints/location labels, region A of 1..6 peers, " +
-		"neighbour region B); streams: fitting 22% (rules written for region A), manager 9% (RuleManager.FitRegion on a real RuleManager + core.BasicCluster), of the rest valid 88% / malformed 12% (missing store, unknown role or operator, count 0, no rule, learner leader) " +
+		"neighbour region B); streams: lockwait (-lockwait: manager cases with the BasicCluster write lock held by another goroutine while the fit starts), cluster (-cluster: stores put and relabelled through RaftCluster.PutStore / UpdateStoreLabels of a real pd server, FitRegion on the RaftCluster), fitting 22% (rules written for region A), manager 9% (RuleManager.FitRegion on a real RuleManager + core.BasicCluster), of the rest valid 88% / malformed 12% (missing store, unknown role or operator, count 0, no rule, learner leader) " +
 		"plus the systematic grid stream (<= 3 rules x <= 4 peers x 2 label levels on a fixed 4-store layout, strided by the seed); non-trivial = at least 2 rules, some peer placed in a rule, and an orphan or a " +
 		"role mismatch or a positive isolation score; distinct by sha256 of the canonical Coq text of inputs and answers"
 	cf := &coqfmt.CaseFile{Dir: *out, Prefix: "C12", PerFile: 250,
@@ -857,6 +1005,12 @@ func main() {
 		master := rng.New(*seed)
 		for k := 0; k < *n; k++ {
 			emit(genCase(master.Fork(uint64(k))))
+		}
+		for k := 0; k < *nlock; k++ {
+			emit(genLockWait(master.Fork(uint64(1000000 + k))))
+		}
+		for k := 0; k < *ncluster; k++ {
+			emit(genCluster(master.Fork(uint64(2000000 + k))))
 		}
 		for k := uint64(0); *nex != 0 && (*nex < 0 || k < uint64(*nex)); k++ {
 			// the exhaustive stream is visited in a seed-dependent stride so that successive quick runs cover different parts
